@@ -208,6 +208,9 @@ func (g *gen) nonEndpoint(b *BackSpec) string {
 		return "dynamic-cfg"
 	case 2:
 		b.InitW++
+		if b.InitW > 256 {
+			b.InitW = 1 // HAProxy takes weights 0..256
+		}
 		return "initial-weight"
 	case 3:
 		b.Dyn = !b.Dyn
